@@ -204,6 +204,17 @@ func TestC19(t *testing.T) {
 			}
 		})
 
+		// which statement is allowed where decides between 65 and a run: every statement kind in every position
+		c.Sub("statement-kinds-in-positions", func(s *Sub) {
+			var k int64
+			stmtPositionTexts(func(label, text string) {
+				k++
+				if c.Mine(k) {
+					c.c19Script(s, "statement-kinds-in-positions", text, "", "statement-position")
+				}
+			})
+		})
+
 		c.Sub("input-matrix", func(s *Sub) {
 			var k int64
 			texts := []string{"alpha", "  padded  ", "\tTab\t", "", "১২", "two words", "  ", "x", " \t "}
